@@ -136,6 +136,24 @@ def conversions_and_fromscalars(ctx, T, db, r, n_cases):
                 conv_s = [Scalar(x, u).GetValue(v) for x in vals]
                 if len(conv_a) != n or not all(close(g, x) for g, x in zip(conv_a, conv_s)):
                     ctx.violation("GetValues(unit):%s" % cont, dict(case, got=conv_a, scalar=conv_s), replay=case)
+                elif u != v and n:
+                    # what a conversion hands out is the caller's: scribbling on it and asking again must give the
+                    # converted amounts again (and the stored values stay what they were)
+                    out = arr.GetValues(v)
+                    if out is arr.GetValues():
+                        continue  # an identity conversion may hand out the stored container itself (like GetValues())
+                    try:
+                        if isinstance(out, list):
+                            out[:] = [0.0] * len(out)
+                        elif hasattr(out, "fill"):
+                            out.fill(0.0)
+                    except Exception:
+                        pass
+                    ctx.ev()
+                    again = list(arr.GetValues(v))
+                    copy_a = list(arr.CreateCopy(unit=v).GetValues())
+                    if not all(close(g, x) for g, x in zip(again, conv_s)) or not all(close(g, x) for g, x in zip(copy_a, conv_s)) or [float(x) for x in arr.GetValues()] != [float(x) for x in vals]:
+                        ctx.violation("GetValues(unit)-after-the-caller-edited-an-earlier-result:%s" % cont, dict(case, second=again, copy=copy_a, scalar=conv_s), replay=case)
         except Exception as e:
             ctx.ev()
             ctx.violation("conversion-raised:%s" % type(e).__name__, dict(case, error=str(e)[:200]), replay=case)
